@@ -316,6 +316,37 @@ def r5_system_time(chk, prog):
                 "the sampled time is recorded before/without the went-backwards guard: a clock that stepped "
                 "back overwrites the latest known time, so the next attempt is judged against the earlier clock",
                 ctx.site(rec[0]) if rec else None, path=ctx.describe_path(p4))
+    # "metadata that is not expired is never rejected as expired": the expiry error is raised at exactly
+    # the two sites that compare against the guarded clock, nowhere else
+    sites = {}
+    for b in prog.bodies.values():
+        if "/.cargo/" in b.file or not b.path.startswith("tough::") or b.path.startswith("tough::error::"):
+            continue            # (the snafu-generated selector impls in error.rs build the variant from the selector)
+        for blk in b.blocks:
+            if blk.cleanup:
+                continue
+            for s_ in blk.stmts:
+                if s_.k == "assign" and s_.rv.k == "agg" and s_.rv.j.get("adt") in (
+                        "tough::error::ExpiredMetadataSnafu",) or (
+                        s_.k == "assign" and s_.rv.k == "agg" and s_.rv.j.get("adt") == "tough::error::Error" and s_.rv.j.get("variant") == "ExpiredMetadata"):
+                    sites.setdefault(root_fn(b.path), []).append(blk.idx)
+    want = {"tough::check_expired", "tough::Repository::read_target"}
+    chk.require(set(sites) == want and all(len(v) == 1 for v in sites.values()), "R5", "tough", "who-raises-expired",
+                "ExpiredMetadata is raised in %s; only check_expired and read_target (each once, on the failing edge of "
+                "their clock comparison) may: any other site rejects metadata as expired that is not" % sorted(sites))
+    for fn_ in want & set(sites):
+        c2 = async_body(prog, fn_)
+        if c2 is None:
+            continue
+        hold = []
+        for (bb, op, a, b_, tr, sp) in c2.comparisons():
+            if any(is_call(o, SYSTEM_TIME) for o in c2.origins.of_operand(a) | c2.origins.of_operand(b_)):
+                hold.extend(tr.pos_edges(0) + tr.neg_edges(0))
+        # the error is constructed only behind one outcome of the clock comparison
+        errb = sites[fn_]
+        p5 = c2.cfg.witness_path(errb, hold)
+        chk.require(bool(hold) and p5 is None, "R5", c2.fn, "expired-only-after-clock-comparison",
+                    "ExpiredMetadata can be raised without the clock having been compared with the expiry", path=c2.describe_path(p5))
     # who may call Utc::now in tough
     callers = set()
     for b in prog.bodies.values():
